@@ -7,6 +7,7 @@ import QR.Props.C09
 import QR.Proofs.SourceTieC05
 import QR.Proofs.Pinned
 import QR.Proofs.SourceTieC05b
+import QR.Proofs.SourceTieB2
 /-
 C05 - function patterns, geometry and data placement of every symbol.
 Finite part: alignment table = Annex E closed form, mask functions = ISO Table 10.
@@ -229,6 +230,36 @@ theorem C05_source_structure :
       "self.setup_position_probe_pattern", "self.setup_position_adjust_pattern", "self.setup_timing_pattern",
       "self.setup_type_info", "self.setup_type_number", "util.create_data", "self.map_data"] :=
   QR.SourceTie.structure_makeImpl
+
+
+/-! ### Source tie, part 2 (T2 plugins `tools/t2_fragments/`): the hand-written Model equals the definitions translated from
+    /repo's current Python AST (`QR.Gen.Code`, regenerated on every run). Restated verbatim from `QR/Proofs/SourceTie*.lean`. -/
+section SourceTieT2
+open QR.Model QR.Gen.Code QR.SourceTieB
+
+/-- a cache miss: `modules_count x modules_count` cells of `None`, the three finder patterns at the translated positions,
+    then alignment and timing patterns -/
+theorem C05_source_blank_src (version : Nat) :
+    blank version = (do
+      let n := makeImpl_modules_count version
+      let m : Mat := Array.replicate (makeImpl_empty_dims n).1 (Array.replicate (makeImpl_empty_dims n).2 none)
+      let m := (makeImpl_probe_args n).foldl (fun m p => setupProbe n m p.1.toNat p.2.toNat) m
+      let pos ← patternPosition version
+      pure (setupTiming n (setupAdjust m pos))) :=
+  QR.SourceTieB.blank_src version
+
+/-- the functional `makeImpl` (given the codewords) performs the same steps -/
+theorem C05_source_makeImpl_src (version level : Nat) (test : Bool) (mask : Nat) (data : List Nat) :
+    makeImpl version level test mask data = (do
+      let n := makeImpl_modules_count version
+      let m ← blank version
+      let m := setupTypeInfo n level m (makeImpl_type_info_args test mask).1 (makeImpl_type_info_args test mask).2
+      let m := if makeImpl_type_number_test version then setupTypeNumber n version m (makeImpl_type_number_arg test) else m
+      if (makeImpl_map_args mask).2 > 7 then .error .typeError
+      else pure (mapData n m data (makeImpl_map_args mask).2)) :=
+  QR.SourceTieB.makeImpl_src version level test mask data
+
+end SourceTieT2
 
 /-- the Python functions this property's model mirrors have, in /repo's current working tree, exactly the normalised
     ASTs the model was written and validated against (fingerprints regenerated by T1 on every run) -/
